@@ -22,4 +22,7 @@ def ofInt16 (i : Int) : UInt16 := UInt16.ofNat (i % 65536).toNat
 def ofInt32 (i : Int) : UInt32 := UInt32.ofNat (i % 4294967296).toNat
 def ofInt64 (i : Int) : UInt64 := UInt64.ofNat (i % 18446744073709551616).toNat
 
+/-- `buf[i]` for a Go `[]byte` and an `int` index: `none` when Go would panic (negative or ≥ len) -/
+def idx? (a : Array UInt8) (i : Int) : Option UInt8 := if i < 0 then none else a[i.toNat]?
+
 end Sipsp.GoSem
